@@ -95,7 +95,9 @@ def case_term(c):
         fs = "[" + ";".join("(%s, %d)" % (bl(f["n"]), f["ty"]) for f in rj["schema"]) + "]"
         cs = "[" + ";".join("(%d, (%d, (%d, (%s, (%s, %s)))))" % (x["len"], x["nil"], x["off"], bl(x["val"]), bl(x["bm"]), zl(x["offs"]))
                             for x in rj["cols"]) + "]"
-        return "(check_record (%s, %s) %s)" % (fs, cs, bl(c["hex"]))
+        n = len(c["hex"]) // 2
+        ks = sorted(set(range(0, min(n, 16))) | {n - 1, n - 2, n - 4, n // 2, n // 3} & set(range(0, n)))
+        return "(check_record_pre (%s, %s) %s %s)" % (fs, cs, bl(c["hex"]), zl(ks))
     if k == "rows":
         if not c.get("rowsj") or c.get("oracle") in ("decode-panic", "decode-error", "roundtrip-differs"):
             return None
@@ -413,8 +415,8 @@ def has_nan(c):
 def nontrivial(c):
     """a case is non-trivial when the implementation produced a block in a compressed / structured mode (not the
     uncompressed fall-back, not an empty block) or when a frame had at least 5 prefixes tried"""
-    if c["k"] == "record":
-        return c.get("typ", 0) > 0
+    if c["k"] == "record":      # rows present and strict prefixes tried on the real decoder
+        return c.get("typ", 0) > 0 and c.get("ppanic", 0) > 10
     if c["k"] == "col":
         return c.get("typ", 0) > 0
     if c["k"] == "file":
